@@ -33,7 +33,7 @@ func main() {
 	if args[0] == "list-json" {
 		type jr struct {
 			ID, Title, Explain string
-			Pkgs, Assume      []string
+			Pkgs, Assume       []string
 		}
 		var out []jr
 		for _, id := range rules.IDs() {
@@ -103,6 +103,9 @@ func main() {
 			}
 		}()
 		r.Run(c)
+		if tier == "thorough" && replay == "" {
+			runControls(c, r, *verif, *repo)
+		}
 	}()
 	if replay != "" {
 		os.Exit(doReplay(c, replay))
